@@ -1157,6 +1157,23 @@ func (l *ledger) oracles(b *types.Block, invalid types.Transactions, byHash map[
 		for _, tx := range b.Txs {
 			walk(tx)
 		}
+		// how did the unregistrations of this block end? (refund at once / postponed: interim period / postponed: deputy)
+		for a := range regBy {
+			pv, nv := l.view(b.ParentHash(), a), l.view(b.Hash(), a)
+			if pv.isCand == 1 && nv.isCand == 2 {
+				switch {
+				case nv.deposit == "":
+					c.Count("unregister:refunded-at-once")
+				case b.Height()%params.TermDuration <= params.InterimDuration && b.Height() > params.InterimDuration:
+					c.Count("unregister:refund-postponed(interim-period)")
+				default:
+					c.Count("unregister:refund-postponed(deputy-of-running-term)")
+				}
+				if vf := nv.voteFor; vf != (common.Address{}) && l.view(b.Hash(), vf).isCand == 1 {
+					c.Count("unregister:leaver-votes-for-registered")
+				}
+			}
+		}
 		votesMoved := false
 		for _, a := range l.univ {
 			v := l.view(b.Hash(), a)
